@@ -152,6 +152,14 @@ def shapes(tier="quick", seed=0):
     add("tag-majority-spelling", doc("TM", [op("/m1", "get", "one", ["datasources"]), op("/m2", "get", "two", ["datasources"]), op("/m3", "get", "three", ["DataSources"])]), tag_variants=True)
     add("opid-collisions", doc("OC", [op("/o1", "get", "list_all", ["o"]), op("/o2", "get", "listAll", ["o"]), op("/o3", "get", "list-all", ["o"]),
                                       op("/o4", "get", "get_a_2", ["o"]), op("/o5", "get", "get_a", ["o"]), op("/o6", "get", "get-a", ["o"])]), opid_collisions=True)
+    add("opid-collision-overlapping-tags", doc("OT", [op("/t1", "get", "list_all", ["Users"]), op("/t2", "get", "listAll", ["Admin", "Users"]),
+                                                       op("/t3", "get", "list-all", ["Admin"])]), opid_collisions=True, multi_tag=True)
+    add("secondary-stream-response", doc("SS", [op("/rep", "get", "getReport", ["rep"], responses={
+        "200": resp_json({"type": "array", "items": PRIMS["str"]}), "206": {"description": "part", "content": {"application/octet-stream": {"schema": PRIMS["binary"]}}}})]), streams=True)
+    add("two-multi-content-ops", doc("MM", [
+        op("/docs", "post", "createDocument", ["docs"], None, {"required": True, "content": {"application/json": {"schema": ref("NewPet")}, "multipart/form-data": {"schema": obj({"file": PRIMS["binary"]})}}}, {"200": resp_json(ref("Pet"))}),
+        op("/docs/{id}", "patch", "updateDocument", ["docs"], [param("id", "path")], {"required": True, "content": {"application/json": {"schema": ref("Err")}, "multipart/form-data": {"schema": obj({"file": PRIMS["binary"]})}}}, {"200": resp_json(ref("Pet"))}),
+    ], S), multi_content=True)
     add("fastapi-opids", doc("FA", [op("/users/{id}", "get", "read_user_users__id__get", ["users"], [param("id", "path")]),
                                     op("/users", "post", "create_user_users_post", ["users"], None, body_json(ref("NewPet")))], S))
     add("all-methods", doc("AM", [op("/am", m, f"{m}Am", ["am"]) for m in ("get", "put", "post", "delete", "options", "head", "patch", "trace")]), all_methods=True)
